@@ -458,6 +458,8 @@ def _tag(op, cur):
         return 'ok'
     if k == 'pick':
         return 'ok' if len(cur) > 1 and 0 <= op[1] < len(cur) else None
+    if 'bins' in op[1:3]:
+        return None               # the text of the 'bins' descriptor written by bin_time is not modelled
     worst = 'ok'
     for v in cur:
         t = _tag1(op, v)
